@@ -100,6 +100,15 @@ def check(case):
     bigB[::3] = B
     rv = np.asarray(lim(bigA[1::2], bigB[::3]), dtype=float)
     require(rv.shape == A.shape and np.array_equal(rv, r), "elementwise-views", "%s on strided views of the same numbers gives %r instead of %r" % (case["limiter"], rv.tolist(), r.tolist()))
+    # memory layout is not part of the value: column-major (Fortran-order) arrays and transposed views of the same 2-D tables give the same table
+    tabA, tabB = np.vstack([A, A[::-1], 0.5 * A]), np.vstack([B, 2.0 * B[::-1], B])
+    rtab = np.asarray(lim(tabA, tabB), dtype=float)
+    rF = np.asarray(lim(np.asfortranarray(tabA), np.asfortranarray(tabB)), dtype=float)
+    rT = np.asarray(lim(np.ascontiguousarray(tabA.T).T, tabB), dtype=float)
+    rTT = np.asarray(lim(tabA.T, tabB.T), dtype=float)
+    require(rF.shape == rtab.shape and np.array_equal(rF, rtab) and np.array_equal(rT, rtab) and rTT.shape == rtab.T.shape and np.array_equal(rTT, rtab.T), "elementwise-memory-order",
+            "%s on column-major / transposed 2-D arrays differs from the same table in row-major order" % case["limiter"])
+    require(np.array_equal(rtab[0], r), "elementwise-2d", "%s: first row of a 3-row table differs from the 1-D result" % case["limiter"])
     r2d = np.asarray(lim(np.vstack([A, A]), np.vstack([B, B])), dtype=float)
     require(r2d.shape == (2, len(A)) and np.array_equal(r2d[0], r) and np.array_equal(r2d[1], r), "elementwise-2d", "%s on a 2-row array of the same pairs gives %r instead of two rows %r"
             % (case["limiter"], r2d.tolist(), r.tolist()))
